@@ -40,6 +40,7 @@ func runC19(c *Ctx) {
 	c19R8(c)
 	c19R9(c)
 	c19R10(c)
+	c19R11(c)
 }
 
 // c19R8: on the cache-hit path too, the digest that is checked and recorded is computed from the bytes.
@@ -979,4 +980,32 @@ func c19R10(c *Ctx) {
 		}
 	}
 	c.R.Check(sumOK && len(hashers) > 0, r, "Download: the digest is the hasher's sum", c.Pos(fn.Pos()), "h.Sum", "DownloadResult.Digest is not computed by Sum on the hasher the TeeReader feeds", true)
+}
+
+// c19R11: F47. index.VerifiedIndex is also what a shape-checking-only (fail-closed) verifier returns, with
+// Verified=false; its contract is that nobody acts on it without testing the flag. Bundle, RunAudit and
+// verifyBundleIndex do; the install path has to as well — once --allow-unsigned skips the artifact gate nothing else
+// stands between an unauthenticated index and an install.
+func c19R11(c *Ctx) {
+	r := c.R.Rule("R11", "K3 no install from an unverified index: every call of downloadVerifyAndInstall lies behind the `verified.Verified` true edge (VerifiedIndex.Verified tested in the caller)", 1)
+	dvi := c.Fn(r, pRegistry, "downloadVerifyAndInstall")
+	vF := c.Field(r, pRegIndex, "VerifiedIndex", "Verified")
+	pkg := c.W.Pkg(pRegistry)
+	if dvi == nil || vF == nil || pkg == nil {
+		return
+	}
+	n := 0
+	for _, fn := range c.W.AllFuncs(c.W.SSA[pkg.Types]) {
+		calls := kit.CallsTo(fn, Set(dvi))
+		if len(calls) == 0 {
+			continue
+		}
+		n += len(calls)
+		g := kit.NewGates()
+		for _, l := range kit.FieldLoads(fn, vF) {
+			g.AddEdges(kit.CondEdges(l, true), "verified.Verified")
+		}
+		c.Dominated(r, kit.FuncKey(fn)+": installs only from a cryptographically verified index", asInstrs(calls), g, "the verified.Verified edge")
+	}
+	c.R.Check(n >= 1, r, "registry: downloadVerifyAndInstall call", "", "found", "no call of downloadVerifyAndInstall found", true)
 }
